@@ -47,7 +47,9 @@ pub fn to_vpl(e: &E) -> BoxFuture<'_, Result<String>> {
 			E::Leaf(tiles) => {
 				let name = fresh("m");
 				let src = MemSource::new(&name, tiles.iter().map(|(c, id)| (*c, payload(*id))).collect(), TileFormat::BIN, TileCompression::Uncompressed).with_yields(tiles.len() % 3); // some leaves suspend before they answer, as readers doing I/O do
-				register(&name, Box::new(src));
+				// ... and some suspend while they are being opened: the earlier listed a source, the longer it takes
+				let open_yields = [3usize, 0, 2, 0, 1][tiles.len() % 5];
+				crate::memsrc::register_slow_open(&name, Box::new(src), open_yields);
 				format!("from_container filename={name}")
 			}
 			E::Zoom(a, b, inner) => format!("{} | filter_zoom{}{}", to_vpl(inner).await?,
@@ -78,8 +80,16 @@ pub async fn build(e: &E) -> Result<Box<dyn OperationTrait>> {
 }
 
 // ---------------- model-side text of an expression ----------------
+/// tile boxes of a geographic box on all levels as the implementation computes them; each is compared with the boxes
+/// that independently computed coordinates allow (C15's oracle) - disagreements are collected and reported by run_into
+pub static GEO_MISMATCH: std::sync::Mutex<Vec<(String, String)>> = std::sync::Mutex::new(Vec::new());
 fn geo_boxes(g: &[f64; 4]) -> Result<Vec<TileBBox>> {
-	(0..=31u8).map(|z| TileBBox::from_geo(z, &GeoBBox(g[0], g[1], g[2], g[3]))).collect()
+	let v: Vec<TileBBox> = (0..=31u8).map(|z| TileBBox::from_geo(z, &GeoBBox(g[0], g[1], g[2], g[3]))).collect::<Result<_>>()?;
+	for (z, b) in v.iter().enumerate() {
+		let (ok_x, ok_y, xl, xh, yl, yh) = crate::c15_bbox::geo_allowed(z as u8, g, b);
+		if !ok_x || !ok_y || b.is_empty() { let mut m = GEO_MISMATCH.lock().unwrap(); if m.len() < 50 { m.push((format!("geo.cover {z} {:?} {:?} {:?} {:?}", g[0], g[1], g[2], g[3]), format!("from_geo gives {}, independent coordinates allow x_min {xl:?} x_max {xh:?} y_min {yl:?} y_max {yh:?}", fb(b)))); } }
+	}
+	Ok(v)
 }
 pub fn expr_tokens(e: &E) -> Result<String> {
 	Ok(match e {
@@ -200,6 +210,12 @@ fn dyadic(rng: &mut Rng, lo: f64, hi: f64) -> f64 {
 	if rng.chance(1, 3) { v + step / 3.0 } else { v }.clamp(lo, hi)
 }
 fn gen_geo(rng: &mut Rng) -> [f64; 4] {
+	if rng.chance(1, 3) { // the bounds of a tile box, as as_geo_bbox prints them: every edge lies exactly on a tile edge
+		let z = rng.range(1, ZMAX as u64 + 3) as u8; let m = (1u32 << z) - 1;
+		let (a, b, c, d) = (rng.below(m as u64 + 1) as u32, rng.below(m as u64 + 1) as u32, rng.below(m as u64 + 1) as u32, rng.below(m as u64 + 1) as u32);
+		let g = TileBBox::new(z, a.min(c), b.min(d), a.max(c), b.max(d)).unwrap().as_geo_bbox();
+		return [g.0, g.1, g.2, g.3];
+	}
 	let (a, b) = (dyadic(rng, -180.0, 180.0), dyadic(rng, -180.0, 180.0));
 	let (c, d) = (dyadic(rng, -85.0, 85.0), dyadic(rng, -85.0, 85.0));
 	let mut g = [a.min(b), c.min(d), a.max(b), c.max(d)];
@@ -325,6 +341,54 @@ fn build_args(rt: &tokio::runtime::Runtime, rng: &mut Rng, thorough: bool, specv
 		if let Some(d) = fail { specv.push(SpecV { kind: "build-arg".into(), expr: txt, query: "".into(), detail: d }); }
 	}
 }
+/// argument decoding against the Coq model (Model/VPLArgs.v): entries are integer literals and words, arrays of 0..8 entries,
+/// parameters given twice, scalar parameters given as arrays
+fn arg_lines(rt: &tokio::runtime::Runtime, rng: &mut Rng, thorough: bool, out: &mut Out, specv: &mut Vec<SpecV>, stats: &mut BTreeMap<String, u64>) {
+	// (unquoted values: the VPL grammar has no leading '+')
+	let pool = ["0", "1", "-1", "5", "20", "45", "90", "91", "-90", "-91", "180", "181", "-180", "-181", "005", "north", "x", "1e", "--1", "7", "-", "255", "256", "31", "32", "33"];
+	let show = |v: &Option<Vec<String>>| -> String { match v { None => "-".into(), Some(l) if l.is_empty() => "()".into(), Some(l) => l.join(",") } };
+	let outcome = |txt: &str| -> (String, Option<(Option<u8>, Option<u8>, bool)>) {
+		match guarded(|| rt.block_on(async { factory().operation_from_vpl(txt).await })) {
+			Err(_) => ("panic".into(), None), Ok(Err(_)) => ("err".into(), None),
+			Ok(Ok(op)) => { let p = &op.get_parameters().bbox_pyramid; ("ok".into(), Some((p.get_zoom_min(), p.get_zoom_max(), p.is_empty()))) }
+		}
+	};
+	let mut fixed: Vec<Vec<&str>> = vec![vec!["0", "0", "20", "20"], vec!["0", "0", "20", "20", "40"], vec!["0", "0", "20", "20", "40", "50"], vec!["0", "0", "20", "20", "-180", "-85", "180", "85"], vec!["0", "0", "20"], vec![], vec!["0", "0", "20", "20", "north"], vec!["0", "0", "20", "north"], vec!["20", "0", "0", "20"], vec!["-180", "-90", "180", "90"], vec!["-181", "0", "0", "0"]];
+	for _ in 0..(if thorough { 600 } else { 80 }) { let n = *rng.pick(&[0usize, 1, 2, 3, 4, 4, 4, 4, 4, 5, 6, 8]); fixed.push((0..n).map(|_| *rng.pick(&pool[..18])).collect()); }
+	// mostly-valid stream: a valid box, then sometimes surplus entries, a dropped entry or one entry replaced
+	let (lons, lats) = (["-180", "-91", "-90", "-1", "0", "005", "20", "45", "90", "91", "180"], ["-90", "-45", "-1", "0", "1", "20", "45", "90"]);
+	for _ in 0..(if thorough { 900 } else { 120 }) {
+		let (a, b) = (rng.below(11) as usize, rng.below(11) as usize); let (c, d) = (rng.below(8) as usize, rng.below(8) as usize);
+		let mut l = vec![lons[a.min(b)], lats[c.min(d)], lons[a.max(b)], lats[c.max(d)]];
+		match rng.below(8) { 0 => l.push(*rng.pick(&pool[..18])), 1 => { l.push("40"); l.push("50"); } 2 => { let k = rng.below(4) as usize; l.remove(k); } 3 => { let k = rng.below(4) as usize; l[k] = *rng.pick(&pool[..18]); } 4 => { l.push("north"); } _ => {} }
+		fixed.push(l);
+	}
+	for (k, l) in fixed.iter().enumerate() {
+		// one array, or the same entries split over two occurrences of the parameter
+		let txt = if k % 4 == 3 && l.len() >= 2 { let cut = 1 + rng.below(l.len() as u64 - 1) as usize; format!("from_debug format=pbf | filter_bbox bbox=[{}] bbox=[{}]", l[..cut].join(","), l[cut..].join(",")) } else { format!("from_debug format=pbf | filter_bbox bbox=[{}]", l.join(",")) };
+		let (o, _) = outcome(&txt);
+		out.line(&format!("vplarg.bbox {} => {o}", show(&Some(l.iter().map(|s| s.to_string()).collect()))));
+		// spec level, independent of the model: std's own number parser and the documented bounds
+		let nums: Vec<Option<f64>> = l.iter().map(|e| e.parse::<f64>().ok()).collect();
+		let valid = l.len() == 4 && nums.iter().all(|n| n.is_some()) && { let v: Vec<f64> = nums.iter().map(|n| n.unwrap()).collect(); v[0] >= -180.0 && v[1] >= -90.0 && v[2] <= 180.0 && v[3] <= 90.0 && v[0] <= v[2] && v[1] <= v[3] };
+		if (o == "ok") != valid { specv.push(SpecV { kind: "build-arg".into(), expr: txt.clone(), query: "".into(), detail: format!("bbox argument with {} entries, valid = {valid}: building gives {o}", l.len()) }); }
+		*stats.entry("vplarg".into()).or_insert(0) += 1;
+	}
+	{ let (o, _) = outcome("from_debug format=pbf | filter_bbox"); out.line(&format!("vplarg.bbox - => {o}")); }
+	let zpool = ["0", "1", "5", "6", "005", "31", "32", "33", "40", "255", "256", "300", "-1", "-0", "x", "1.5", "1e1", ""];
+	for i in 0..(if thorough { 900 } else { 160 }) {
+		let mut param = |rng: &mut Rng| -> Option<Vec<String>> { match rng.below(8) { 0 => None, 1 => Some((0..rng.range(0, 4)).map(|_| rng.pick(&zpool[..17]).to_string()).collect()), _ => Some(vec![rng.pick(&zpool[..17]).to_string()]) } };
+		let (a, b) = (param(rng), param(rng));
+		let part = |name: &str, v: &Option<Vec<String>>, arr: bool| -> String { match v { None => String::new(), Some(l) if l.len() == 1 && !arr => format!(" {name}={}", l[0]), Some(l) => format!(" {name}=[{}]", l.join(",")) } };
+		let txt = format!("from_debug format=pbf | filter_zoom{}{}", part("min", &a, i % 5 == 0), part("max", &b, i % 7 == 0));
+		let (o, info) = outcome(&txt);
+		let o = match info { Some((_, _, true)) => "ok:empty".to_string(), Some((Some(lo), Some(hi), false)) => format!("ok:{lo}-{hi}"), Some(_) => "ok:?".into(), None => o };
+		out.line(&format!("vplarg.zoom {} {} => {o}", show(&a), show(&b)));
+		let okp = |v: &Option<Vec<String>>| -> bool { match v { None => true, Some(l) => l.len() == 1 && l[0].parse::<u8>().is_ok() } };
+		if o.starts_with("ok") != (okp(&a) && okp(&b)) { specv.push(SpecV { kind: "build-arg".into(), expr: txt.clone(), query: "".into(), detail: format!("zoom arguments valid = {}: building gives {o}", okp(&a) && okp(&b)) }); }
+		*stats.entry("vplarg".into()).or_insert(0) += 1;
+	}
+}
 fn fmt_f(v: f64) -> String { if v.is_nan() { "NaN".into() } else if v.is_infinite() { if v > 0.0 { "inf".into() } else { "-inf".into() } } else { format!("{v}") } }
 
 // parse the model-side text back into an expression (for replay)
@@ -399,10 +463,12 @@ pub fn run_into(ctx: &Ctx, focus: &str, col: &mut Collector) -> Result<()> {
 	}
 	if focus == "c09" || focus == "pipe" {
 		build_args(&rt, &mut rng, ctx.thorough, &mut specv, &mut stats);
+		arg_lines(&rt, &mut rng, ctx.thorough, &mut col.out, &mut specv, &mut stats);
 	}
 	for x in &specv {
 		col.violation(&x.kind, &x.expr, &format!("pipe {} ;; {}", x.expr, x.query), &format!("{} | query {}", x.detail, x.query));
 	}
+	for (input, detail) in GEO_MISMATCH.lock().unwrap().drain(..) { col.violation("geo-box", &input, &input, &detail); }
 	let nqueries: u64 = stats.iter().filter(|(k, _)| k.starts_with("q:")).map(|(_, v)| *v).sum();
 	col.spec_cases += nqueries;
 	for (k, v) in stats { col.bump(&k, v); }
